@@ -223,8 +223,8 @@ func (r *Rec) Check(t fataler, v *Violation, kind string, c any) {
 	r.frozen = true
 	if first {
 		r.Violations++
-		r.FirstMsg = v.Msg
 	}
+	r.FirstMsg = v.Msg // the last failing call is the most shrunk one
 	r.mu.Unlock()
 	cb, err := json.Marshal(c)
 	if err != nil {
